@@ -90,6 +90,7 @@ def model_check(report, N, K, fault_sel, die, liveness=True, outcomes=False, tag
 # ------------------------------------------------------------------ items and sketches
 
 CMS_ARGS = {"cms_type": "linear", "width": 4, "depth": 2}
+CMS_LOG_ARGS = {"cms_type": "log8", "width": 4, "depth": 2, "max_count": 5000, "num_reserved": 30}
 HH_ARGS = {"width": 2, "depth": 2, "max_key_len": 4}
 HLL_ARGS = {"p": 7, "seed": 3}
 KEYS = [b"a", b"b", b"\x00", b"a\x00", b"abcde", b"", b"zz"]
@@ -225,6 +226,13 @@ def replay_outcome(report, N, K, fault_sel, die, out, rng, which, batch):
     assign = [w - 1 for w in out["assign"]]
     sseed = rng.choice([None, rng.randrange(10**6), rng.randrange(10**6)])
     late = bool(die) and rng.random() < 0.5
+    # sometimes the count-min sketch is a log sketch with non-default parameters (all counts of the
+    # stream stay inside its reserved range, so it is deterministic)
+    cms_log = "cms" in which and rng.random() < 0.3
+    cms_args = dict(CMS_LOG_ARGS) if cms_log else dict(CMS_ARGS)
+    expect_params = {"CountMinLog8": {"max_count": 5000, "num_reserved": 30, "width": 4, "depth": 2},
+                     "CountMinLinear": {"width": 4, "depth": 2},
+                     "HeavyHitters": {"width": 2, "depth": 2, "max_key_len": 4}, "HyperLogLog": {"p": 7, "seed": 3}}
     old_init = fakemp.Sched.__init__
 
     def init(self, *a, **k):
@@ -233,8 +241,8 @@ def replay_outcome(report, N, K, fault_sel, die, out, rng, which, batch):
     fakemp.Sched.__init__ = init
     try:
         outcome, res, sched = fakemp.run_parallel_add(
-            list(range(len(items))), padd_cb.cb, N, table=items,
-            cms_args=dict(CMS_ARGS) if "cms" in which else None,
+            list(range(len(items))), padd_cb.cb, N, table=items, expect_params=expect_params,
+            cms_args=cms_args if "cms" in which else None,
             hh_args=dict(HH_ARGS) if "hh" in which else None,
             hll_args=dict(HLL_ARGS) if "hll" in which else None, assign=assign,
             sched_seed=sseed,
@@ -243,7 +251,7 @@ def replay_outcome(report, N, K, fault_sel, die, out, rng, which, batch):
         fakemp.Sched.__init__ = old_init
         padd_cb.CTL = None
     scen = {"N": N, "K": K, "faults": {str(k): v for k, v in faults.items() if v != "ok"}, "die": die,
-            "assign": out["assign"], "sketches": sorted(which), "scheduler_seed": sseed, "late_death": late}
+            "assign": out["assign"], "sketches": sorted(which), "scheduler_seed": sseed, "late_death": late, "cms_is_log8": cms_log}
     report.count_action("replay:" + out["st"])
 
     def bad(msg):
@@ -282,7 +290,20 @@ def replay_outcome(report, N, K, fault_sel, die, out, rng, which, batch):
                 return bad("returned HyperLogLog differs from the sequentially built sketch")
             if float(seq.query()) != float(result["hll"].query()):
                 return bad("HyperLogLog.query() differs from the sequential result")
-        batch.add(sketch_traces(items, contributed, flushed, N, result, which))
+        if cms_log:
+            sk = result["cms"]
+            if type(sk).__name__ != "CountMinLog8" or int(sk.max_count) != 5000 or int(sk.num_reserved) != 30:
+                return bad("returned count-min sketch is %s(max_count=%s, num_reserved=%s)" % (
+                    type(sk).__name__, getattr(sk, "max_count", "-"), getattr(sk, "num_reserved", "-")))
+            truth = {}
+            for it in items:
+                if it["id"] in held:
+                    for k, m in it["ops"]:
+                        truth[bytes(k)] = truth.get(bytes(k), 0) + m
+            for k, v in truth.items():
+                if v <= 30 and float(sk.query(k)) < v:       # inside the reserved range: never below the truth
+                    return bad("log count-min estimate %r for %r below its true count %d" % (float(sk.query(k)), k, v))
+        batch.add(sketch_traces(items, contributed, flushed, N, result, which - ({"cms"} if cms_log else set())))
         del result, res
     report.cov["traces_validated_against_impl"] += 1
     report.cov["evaluations"] += 1
@@ -431,3 +452,31 @@ def composition_check(report, N):
         report.violation("model: %s %s violated in the composition Sketchnu.tla" % (r.kind, r.violated),
                          {"kind": "model", "module": "MC_Sketchnu", "violated": r.violated,
                           "signature": {"model": r.violated}})
+
+
+
+def direct_merging(report, rng, N, batch):
+    """helpers.parallel_merging called directly on N shared-memory HyperLogLogs holding a partitioned key
+    set: the result must be the union (validated by the HyperLogLog trace spec, merge tree included)."""
+    sks = [impl.hyperloglog.HyperLogLog(HLL_ARGS["p"], HLL_ARGS["seed"], shared_memory=True) for _ in range(N)]
+    ev = []
+    for w, sk in enumerate(sks):
+        for _ in range(rng.randint(0, 4)):
+            key = bytes(rng.randrange(256) for _ in range(rng.randint(0, 9)))
+            sk.add(key)
+            ev.append({"ev": "add", "s": w + 1, "k": kb(key)})
+    outcome, res, _sched = fakemp.run_under_scheduler(lambda lq: impl.helpers.parallel_merging(sks, lq),
+                                                      sched_seed=rng.choice([None, rng.randrange(10**6)]))
+    if outcome != "returned" or not isinstance(res, impl.hyperloglog.HyperLogLog):
+        report.violation("parallel_merging of %d HyperLogLogs: %s %r" % (N, outcome, res),
+                         {"kind": "padd", "signature": {"padd": "direct_merging"}})
+        return False
+    for a, b in merge_tree(N):
+        ev.append({"ev": "merge", "s": a + 1, "t": b + 1})
+    if not ev:
+        ev.append({"ev": "query", "s": 1, "out": "0x0.0p+0", "fresh": "0x0.0p+0"})
+    ev[-1]["post"] = [hllmod.proj_hll(res)]
+    batch.add({"hll": {"p": HLL_ARGS["p"], "seed": list(int(HLL_ARGS["seed"]).to_bytes(8, "little")), "NS": N, "events": ev}})
+    report.count_action("direct_parallel_merging")
+    del sks, res
+    return True
